@@ -579,10 +579,47 @@ pub fn run(ctx: &Ctx, st: &mut Stats) {
                 }
             }
         }
-        cold_threads(st, "history: first rendering of a fresh thread (re-entrant / failing / panicking sinks, long runs, dense pictures)", list, |st, o: &Owned| {
+        cold_threads(st, "history: first rendering of a fresh thread (re-entrant / failing / panicking sinks, long runs, dense pictures)", list.clone(), |st, o: &Owned| {
             check(st, &F { v: o.v, pic: &o.p.text, toks: &o.p.toks, f: &o.p.f, via_display: o.via_display, fail_cap: o.fail_cap })
         });
+        // compile + render from a thread-exit destructor registered before the thread's first library call
+        #[derive(Clone)]
+        struct Late(Owned);
+        impl Case for Late {
+            fn to_json(&self) -> Value {
+                let mut j = self.0.to_json();
+                j["compiled_and_rendered_in"] = json!("thread-exit destructor");
+                j
+            }
+        }
+        let late: Vec<Late> = list.into_iter().filter(|o| o.fail_cap == -1 || o.fail_cap == -2).map(Late).collect();
+        teardown_threads(st, "history: picture compiled and value rendered from a thread-exit destructor", late, |st, l: &Late| {
+            let o = &l.0;
+            // a fresh Formatter inside the destructor: Formatter::try_new must work there as well
+            if let Some(p) = pic(st, &o.p.text, Some("C04/documented-token-picture-rejected")) {
+                check(st, &F { v: o.v, pic: &p.text, toks: &p.toks, f: &p.f, via_display: o.via_display, fail_cap: o.fail_cap });
+            }
+        });
     }
+    // (i) dense pictures: 30..36 wide tokens without separators (hundreds of bytes of output with no blank run in between),
+    //     for values whose names are the longest (a Wednesday in September) and others
+    let ndense = ctx.tier.pick(40, 20_000, 400_000);
+    ctx.par(st, "(i) dense pictures of 30..36 wide tokens without separators", false, 0, ndense, |st, i, rng| {
+        let wide = ["MONTH", "Month", "month", "DAY", "Day", "day", "FF9", "FF8", "FF7", "YYYY", "DDD", "HH24", "MON", "Dy", "FF"];
+        let k = 30 + rng.below(7) as usize;
+        let mut p = String::new();
+        for _ in 0..k {
+            p.push_str(*rng.pick(&wide));
+            if rng.chance(1, 12) {
+                p.push_str(*rng.pick(&["-", " ", ":", "  "]));
+            }
+        }
+        if let Some(pc) = pic(st, &p, None) {
+            let v = if i % 2 == 0 { V::Ts(2021, 9, 15, 17, 6, 8, 912_345) } else { rand_value(rng, Ty::Ts) };
+            let h = mix(hash64(p.as_bytes()), hash64(v.show().as_bytes()));
+            st.eval_h(h, &F { v, pic: &pc.text, toks: &pc.toks, f: &pc.f, via_display: i % 4 < 2, fail_cap: -1 }, check);
+        }
+    });
     // (e) random composite pictures x random values of all types
     let n = ctx.tier.pick(400, 600_000, ctx.big(12_000_000, 80_000_000));
     ctx.par(st, "(e) random composite pictures x random values, all six types", false, 0, n, |st, _, rng| {
